@@ -252,7 +252,13 @@ func runC06(e *core.Env) {
 			if op.Flag {
 				o = append(o, regclient.WithManifestCheckReferrers())
 			}
-			err = rc.ManifestDelete(ctx, mustRef(strings.TrimSuffix(ep.refStr("x"), ":x")+"@"+n.Digest), o...)
+			dr := mustRef(strings.TrimSuffix(ep.refStr("x"), ":x") + "@" + n.Digest)
+			if op.T%2 == 1 {
+				// the reference may carry a tag beside the digest (as regctl builds it when it dereferences a tag)
+				dr = mustRef(ep.refStr(t)).AddDigest(n.Digest)
+				e.Probe("manifest-delete-by-tag+digest-reference")
+			}
+			err = rc.ManifestDelete(ctx, dr, o...)
 		case "head":
 			m, herr := rc.ManifestHead(ctx, mustRef(ep.refStr(t)), regclient.WithManifestRequireDigest())
 			err = herr
